@@ -67,6 +67,7 @@ pub fn base_plan(quick: bool) -> SweepPlan {
         corner: vec![],
         skip_reach: false,
         absurd: false,
+        ep_push: false,
     }
 }
 
@@ -313,6 +314,7 @@ fn c02_c03_c15(run: &Run, prop: &str) -> i32 {
     plan.heavy = Some((9, 10, 10));
     plan.corner = corner_sigs(if run.quick() { 2 } else { 30 });
     plan.absurd = true;
+    plan.ep_push = true;
     let (mut s, mut t) = sweep::run_plan(&ctx, &plan);
     // E2: nested make / null / take-back sequences
     let om = OpMon { rules: prop == "C02", key: prop == "C03", accum: prop == "C15", draws: false, nulls: true };
@@ -326,13 +328,15 @@ fn c02_c03_c15(run: &Run, prop: &str) -> i32 {
     // one long reversible game (clock and history length far beyond what the nested sequences reach): at every ply
     // every other legal move is made and taken back on the same game object before the scripted move is played
     {
-        let plies = if run.quick() { 300 } else { 700 };
-        let (seed, script) = ops::rook_cycle_script(7, 8, plies, true);
+        let plies = if run.quick() { 560 } else { 1100 };
+        let (seed, mut script) = ops::rook_cycle_script(7, 8, plies, true);
+        // ... and the whole game is taken back move by move at the end
+        script.extend(std::iter::repeat("undo".to_string()).take(plies));
         total.lock().unwrap().clear();
         match ops::run_script(&ctx, om, &seed, &script, &total) {
             Ok(n) => {
                 run.merge_counts(&total.lock().unwrap());
-                run.family("E2-LONG-LINE", &format!("one scripted reversible game of {plies} plies (two rooks cycling, recurrence every 112 plies, halfmove clock and history length up to {plies}); at each ply every legal move is made and taken back, then the scripted move is played: {} operations", script.len()), n, script.len() as u64, true, "");
+                run.family("E2-LONG-LINE", &format!("one scripted reversible game of {plies} plies (two rooks cycling, recurrence every 112 plies, halfmove clock and history length up to {plies}); at each ply every legal move is made and taken back, then the scripted move is played; at the end the whole game is taken back ply by ply: {} operations", script.len()), n, script.len() as u64, true, "");
                 s += n;
                 t += script.len() as u64;
             }
@@ -473,10 +477,37 @@ fn c11(run: &Run) -> i32 {
                 Err(e) => run.machinery_error(format!("rook cycle script with take-backs: {e}")),
             }
         }
+        // capture histories that start far outside normal material: a rook or queen eats 1..6 queens, rooks, knights or
+        // pawns; the dead-material verdict is judged after every ply
+        for n in 1..=6usize {
+            for fodder in ['Q', 'R', 'N', 'P'] {
+                for eater in ['r', 'q'] {
+                    let (seed, script) = ops::eat_script(n, fodder, eater);
+                    // (a queen on a7 looks at g1: such a script is not a legal game and is left out)
+                    let mut p = Pos::from_fen(&seed).unwrap();
+                    let mut legal = p.is_legal_position();
+                    for m in &script {
+                        match p.legal_moves().into_iter().find(|x| x.uci() == *m) {
+                            Some(rm) if legal => p = p.apply(&rm),
+                            _ => legal = false,
+                        }
+                    }
+                    if !legal {
+                        continue;
+                    }
+                    match ops::run_script(&ctx, om, &seed, &script, &total) {
+                        Ok(k) => {
+                            nodes.fetch_add(k, std::sync::atomic::Ordering::Relaxed);
+                        }
+                        Err(e) => run.machinery_error(format!("eat script ({n},{fodder},{eater}) from {seed}: {e}")),
+                    }
+                }
+            }
+        }
         let n = nodes.load(std::sync::atomic::Ordering::Relaxed);
         run.merge_counts(&total.lock().unwrap());
         total.lock().unwrap().clear();
-        run.family("E2-LONG-CYCLES", "42 scripted histories (white rook cycling over p = 2..7 squares of rank 1, black rook over q = 2..8 squares of rank 8): recurrence distances 4..112 plies, each played for max(120, 4 lcm(p,q) + 7) plies (at most 470); the (7,8) history once more for 300 plies with every legal move made and taken back at every ply", n, n, true, "every node: repetition and fifty-move verdicts vs the path");
+        run.family("E2-LONG-CYCLES", "42 scripted histories (white rook cycling over p = 2..7 squares of rank 1, black rook over q = 2..8 squares of rank 8): recurrence distances 4..112 plies, each played for max(120, 4 lcm(p,q) + 7) plies (at most 470); the (7,8) history once more for 300 plies with every legal move made and taken back at every ply; 44 capture histories (a rook or queen eats a file of 1..6 queens, rooks, knights or pawns) with the dead-material verdict judged at every ply", n, n, true, "every node: repetition and fifty-move verdicts vs the path");
         s += n;
         t += n;
     }
@@ -523,6 +554,20 @@ fn c16(run: &Run) -> i32 {
         plan.ep_extra = vec![None, Some((Color::B, Kind::B))];
         plan.castle_enemy = vec![vec![Kind::Q], vec![Kind::R]];
         plan.mat2 = vec![vec![(Color::W, Kind::Q), (Color::B, Kind::R)], vec![(Color::W, Kind::P), (Color::B, Kind::P)], vec![(Color::W, Kind::B), (Color::B, Kind::N)]];
+    }
+    // endings with bishops and pawns (opposite-coloured bishops, the wrong bishop for a rook's pawn, doubled passed
+    // pawns): kings fixed on a1 / h8 and on e1 / e8, three further men on all squares, with colour-mirrored twins
+    {
+        let (w, b) = (Color::W, Color::B);
+        let sigs: Vec<Vec<families::Man>> = vec![vec![(w, Kind::B), (b, Kind::B), (b, Kind::P)], vec![(w, Kind::B), (w, Kind::P), (w, Kind::P)], vec![(w, Kind::B), (w, Kind::P), (b, Kind::P)], vec![(w, Kind::P), (w, Kind::P), (b, Kind::P)]];
+        for (wk, bk) in [(0u8, 63u8), (4, 60)] {
+            for sig in &sigs {
+                if run.quick() && (wk, bk) == (4, 60) && sig[0].1 == Kind::P {
+                    continue;
+                }
+                plan.corner.push((wk, bk, sig.clone()));
+            }
+        }
     }
     let (mut s, mut t) = sweep::run_plan(&ctx, &plan);
     let (a, b) = blend::run(run);
